@@ -90,6 +90,20 @@ def run_cmdline_property(v, family, design_cfg, replay_cfg="MC_CmdLine_replay.cf
     return cov
 
 
+def run_tree_groups(v, seed, n, maxlen, budget, kinds, signature, ledger_every=1):
+    """TreeLine.tla: subcommands whose own level has choices / adjacent groups; all lines, replayed with hook validation"""
+    fam = D.tree_group_family(seed, n, maxlen=maxlen, budget=budget, kinds=kinds)
+    def sig(m):
+        d = m.get("def_full") or {}
+        subs = [c["level"] for c in d.get("tail", {}).get("cmds", [])] if isinstance(d, dict) else []
+        s = signature(dict(m, def_full=subs[0]) if len(subs) == 1 else m)
+        s["shape"] = "group_inside_command"
+        return s if "rule" not in s else {k: s[k] for k in s if k != "shape"}
+    cov = run_cmdline_property(v, fam, None, replay_cfg="MC_TreeLine_replay.cfg", module="MC_TreeLine", signature=sig,
+                               ledger_every=ledger_every, name=v.pid + "-tree", extra_files=[os.path.join(TLA, "TreeLine.tla")])
+    return cov
+
+
 def run_driver(v, hbin, driver, name, signature, trace_module="CmdLineTrace"):
     """driver = dict(defs=[...], n=int, maxlen=int, judge=optional)"""
     rnd = random.Random(SEED * 7919 + 13)
